@@ -90,6 +90,9 @@ func KeySpecOf(kind string) signature.KeySpec {
 type RemoteSigner struct {
 	Key      *pki.Key
 	Spec     signature.KeySpec
+	SpecSeq  []signature.KeySpec // if set: the n-th KeySpec() call returns SpecSeq[min(n, len-1)]
+	specN    int
+	lastSpec signature.KeySpec
 	SpecErr  error
 	Chain    []*x509.Certificate
 	SignErr  error
@@ -108,7 +111,11 @@ func (s *RemoteSigner) Sign(payload []byte) ([]byte, []*x509.Certificate, error)
 	if s.SignErr != nil {
 		return nil, nil, s.SignErr
 	}
-	sig, err := RawSign(s.Key, s.Spec.SignatureAlgorithm(), payload)
+	spec := s.Spec
+	if len(s.SpecSeq) > 0 {
+		spec = s.lastSpec // sign for what was declared last
+	}
+	sig, err := RawSign(s.Key, spec.SignatureAlgorithm(), payload)
 	if err != nil {
 		// unsupported declared spec: sign with the key's natural algorithm
 		sig, err = RawSign(s.Key, KeySpecOf(s.Key.Kind).SignatureAlgorithm(), payload)
@@ -123,7 +130,20 @@ func (s *RemoteSigner) Sign(payload []byte) ([]byte, []*x509.Certificate, error)
 }
 
 // KeySpec implements signature.Signer.
-func (s *RemoteSigner) KeySpec() (signature.KeySpec, error) { return s.Spec, s.SpecErr }
+func (s *RemoteSigner) KeySpec() (signature.KeySpec, error) {
+	if len(s.SpecSeq) > 0 {
+		s.mu.Lock()
+		defer s.mu.Unlock()
+		i := s.specN
+		if i >= len(s.SpecSeq) {
+			i = len(s.SpecSeq) - 1
+		}
+		s.specN++
+		s.lastSpec = s.SpecSeq[i]
+		return s.lastSpec, s.SpecErr
+	}
+	return s.Spec, s.SpecErr
+}
 
 // NewRemote returns a well-behaved remote signer for a chain.
 func NewRemote(ch *pki.Chain) *RemoteSigner {
